@@ -9,19 +9,30 @@ import WcModel.Proofs.Limit
            met by the eager bracex 3.0.1 — `eagerBrace_ok` — and by a fully lazy generator —
            `lazyBrace_ok`).  `allPieces` = complete expansion (braces → split → tilde) of a list,
            duplicates included; `distinct` = first occurrences; `totalWeight` = per pattern the
-           larger of its piece count and bracex's own count.
-  For each of the three loops:
-    `C11_raises_*`  more than L distinct pieces (L > 0)          → PatternLimitException
-    `C11_ok_*`      total weight ≤ L                              → no exception
-    `C11_work_*`    items drawn from the expansion generator      ≤ L + 1 (per list; see below)
-    `C11_zero_*`    limit = 0                                     → no exception
-  PARTIAL — two genuine defects of the tree make the full statements false for `exclude=`:
-    * `translate` / `compile_pattern` (D11): `limit -= len(negative)` can reach 0 = unlimited, so
-      FULL `C11_raises` (`exclCount + distinct main > L → raises`) needs `exclude = none ∨
-      exclCount < L` — `D11_witness_*`; for the same reason FULL `C11_zero` fails with
-      `exclude=` (limit 0 becomes negative, `current_limit` is clamped to 1) — `D11_zero_witness`.
-    * `Glob` (D22): `total` is re-initialised for the exclusion list, so only "one of the two
-      lists has more than L pieces" raises — `D22_witness`.
+           larger of its piece count and bracex's own count; `exclCount` / `exclTotal` = the
+           distinct / all pieces of the `exclude=` list.
+  For each of the three loops, FULL statements (any `exclude=`):
+    `C11_raises_*`  more than L distinct pieces, exclusions included (L > 0) → PatternLimitException
+                    (`_total`: the exact count of the code — the exclusion call counts all its
+                    pieces, the main loop the distinct exclusions + all its own pieces; `Glob`
+                    counts all pieces of both lists)
+    `C11_ok_*`      total weight, exclusions included, ≤ L         → no exception, and the result is
+                                                                     the one under limit 0
+    `C11_work_*`    items drawn from the expansion generator by the whole call ≤ L + 1
+                    (+ the number of DUPLICATE exclusion pieces for `translate` / `compile_pattern`,
+                    whose exclusion call counts duplicates while the main loop continues from the
+                    number of distinct exclusions; `C11_work_per_call`: each of the two loops of such
+                    a call stays within `L + 1` of where it started)
+    `C11_zero_*`    limit = 0                                      → no exception, any `exclude=`
+  The `_partial` theorems are the statements the unrepaired tree allowed (D11: `limit -=
+  len(negative)` could reach 0 = unlimited or go negative; D22: `Glob` re-initialised `total` for
+  the exclusion list) — now corollaries; `D11_*_fixed_witness` / `D22_fixed_witness` replace the
+  witnesses of the two defects.
+  NEGATIVE limits: `limit < 0` never raises through the count (`0 < limit < total`) and is handed
+  to bracex as it is (= unlimited) for the FIRST pattern, but `if limit: current_limit -= count;
+  if current_limit < 1: current_limit = 1` then clamps the bracex budget to 1, so a second brace
+  pattern raises (`negative_limit_witness`; the same in all three loops, with or without
+  `exclude=`, before and after the repairs).  The property speaks of limit 0 only.
 -/
 namespace WcModel.C11
 open WcModel.Compile
@@ -30,120 +41,234 @@ variable {R : Type}
 
 /-! ### `translate` -/
 
+/-- FULL (was `_partial` with `exclude = none ∨ exclCount < L`) -/
+theorem C11_raises_translate (x : Ext R) (fl : Flags) (cnt : Pat → Nat) (hb : BraceOK x cnt)
+    (L : Int) (hL : 0 < L) (ps : List Pat) (ex : Option (List Pat))
+    (hne : exclNormOK true x fl ex) (hnm : NormOK x (flM true fl ex.isSome) ps)
+    (h : L < ((exclCount true x fl ex + (distinct (allPieces x (flM true fl ex.isSome) ps)).length : Nat) : Int)) :
+    ∃ k, translate x fl L ps ex = .error (.patternLimit, k) := by
+  rw [translate_eq]
+  have := distinct_length_le (allPieces x (flM true fl ex.isSome) ps)
+  exact pn_raises true x fl cnt hb L hL ps ex hne hnm (Or.inr (by push_cast at h ⊢; omega))
+
+/-- the exact count: the exclusion call counts all its pieces; the main loop continues from the
+    number of distinct exclusions and counts all its own pieces -/
+theorem C11_raises_translate_total (x : Ext R) (fl : Flags) (cnt : Pat → Nat) (hb : BraceOK x cnt)
+    (L : Int) (hL : 0 < L) (ps : List Pat) (ex : Option (List Pat))
+    (hne : exclNormOK true x fl ex) (hnm : NormOK x (flM true fl ex.isSome) ps)
+    (h : L < (exclTotal true x fl ex : Int) ∨
+         L < ((exclCount true x fl ex + (allPieces x (flM true fl ex.isSome) ps).length : Nat) : Int)) :
+    ∃ k, translate x fl L ps ex = .error (.patternLimit, k) := by
+  rw [translate_eq]; exact pn_raises true x fl cnt hb L hL ps ex hne hnm h
+
 theorem C11_raises_translate_partial (x : Ext R) (fl : Flags) (cnt : Pat → Nat) (hb : BraceOK x cnt)
     (L : Int) (hL : 0 < L) (ps : List Pat) (ex : Option (List Pat))
     (hne : exclNormOK true x fl ex) (hnm : NormOK x (flM true fl ex.isSome) ps)
-    (hpart : ex = none ∨ (exclCount true x fl ex : Int) < L)
+    (_hpart : ex = none ∨ (exclCount true x fl ex : Int) < L)
     (h : L < ((exclCount true x fl ex + (distinct (allPieces x (flM true fl ex.isSome) ps)).length : Nat) : Int)) :
-    ∃ k, translate x fl L ps ex = .error (.patternLimit, k) := by
-  rw [translate_eq]; exact pn_raises true x fl cnt hb L hL ps ex hne hnm hpart h
+    ∃ k, translate x fl L ps ex = .error (.patternLimit, k) :=
+  C11_raises_translate x fl cnt hb L hL ps ex hne hnm h
 
+/-- no exception, and the same result as with the limit disabled -/
 theorem C11_ok_translate (x : Ext R) (fl : Flags) (cnt : Pat → Nat) (hb : BraceOK x cnt)
     (L : Int) (hL : 0 < L) (ps : List Pat) (ex : Option (List Pat))
     (hne : exclNormOK true x fl ex) (hnm : NormOK x (flM true fl ex.isSome) ps)
     (h : ((exclWeight true x fl cnt ex + totalWeight x (flM true fl ex.isSome) cnt ps : Nat) : Int) ≤ L) :
-    ∃ o, translate x fl L ps ex = .ok o := by
-  rw [translate_eq]; exact pn_ok true x fl cnt hb L hL ps ex hne hnm h
+    ∃ o, translate x fl L ps ex = .ok o ∧ translate x fl 0 ps ex = .ok o := by
+  rw [translate_eq, translate_eq]; exact pn_ok true x fl cnt hb L hL ps ex hne hnm h
 
+/-- FULL (no hypothesis on `exclude=`): `L + 1` without `exclude=`; `L + 1` + the duplicate
+    exclusion pieces in general; never more than `2 L + 1` -/
 theorem C11_work_translate (x : Ext R) (fl : Flags) (cnt : Pat → Nat) (hb : BraceOK x cnt)
+    (hs : ∀ f : Flags, f.split = true → SplitNonempty x f) (L : Int) (hL : 0 < L)
+    (ps : List Pat) (ex : Option (List Pat)) :
+    (ex = none → (pullsOf (translate x fl L ps ex) Out.pulls : Int) ≤ L + 1) ∧
+    ((pullsOf (translate x fl L ps ex) Out.pulls + exclCount true x fl ex : Nat) : Int) ≤
+        L + 1 + exclTotal true x fl ex ∧
+    (pullsOf (translate x fl L ps ex) Out.pulls : Int) ≤ 2 * L + 1 := by
+  rw [translate_eq]
+  obtain ⟨h1, h2, h3, _⟩ := pn_work true x fl cnt hb hs L hL ps ex
+  exact ⟨h1, h2, h3⟩
+
+theorem C11_work_translate_partial (x : Ext R) (fl : Flags) (cnt : Pat → Nat) (hb : BraceOK x cnt)
     (hs : ∀ f : Flags, f.split = true → SplitNonempty x f) (L : Int) (hL : 0 < L)
     (ps : List Pat) (ex : Option (List Pat)) (hpart : ex = none ∨ (exclCount true x fl ex : Int) < L) :
     (ex = none → (pullsOf (translate x fl L ps ex) Out.pulls : Int) ≤ L + 1) ∧
     ((pullsOf (translate x fl L ps ex) Out.pulls + exclCount true x fl ex : Nat) : Int) ≤ 2 * L + 1 := by
-  rw [translate_eq]; exact pn_work true x fl cnt hb hs L hL ps ex hpart
+  rw [translate_eq]
+  obtain ⟨h1, _, _, h4⟩ := pn_work true x fl cnt hb hs L hL ps ex
+  exact ⟨h1, h4 hpart⟩
 
+/-- an exclusion list without duplicate pieces: `L + 1` for the whole call (no bound on its size
+    is needed any more) -/
 theorem C11_work_translate_nodup (x : Ext R) (fl : Flags) (cnt : Pat → Nat) (hb : BraceOK x cnt)
     (hs : ∀ f : Flags, f.split = true → SplitNonempty x f) (L : Int) (hL : 0 < L) (ps e : List Pat)
-    (hpart : ((distinct (allPieces x (flE true fl) e)).length : Int) < L)
     (hnodup : (allPieces x (flE true fl) e).length = (distinct (allPieces x (flE true fl) e)).length) :
     (pullsOf (translate x fl L ps (some e)) Out.pulls : Int) ≤ L + 1 := by
-  rw [translate_eq]; exact pn_work_nodup true x fl cnt hb hs L hL ps e hpart hnodup
+  rw [translate_eq]; exact pn_work_nodup true x fl cnt hb hs L hL ps e hnodup
+
+/-- FULL: any `exclude=` -/
+theorem C11_zero_disables_translate (x : Ext R) (fl : Flags) (cnt : Pat → Nat) (hb : BraceOK x cnt)
+    (ps : List Pat) (ex : Option (List Pat))
+    (hne : exclNormOK true x fl ex) (hnm : NormOK x (flM true fl ex.isSome) ps) :
+    ∃ o, translate x fl 0 ps ex = .ok o := by
+  rw [translate_eq]; exact ⟨_, pn_zero true x fl cnt hb ps ex hne hnm⟩
 
 theorem C11_zero_disables_translate_partial (x : Ext R) (fl : Flags) (cnt : Pat → Nat) (hb : BraceOK x cnt)
     (ps : List Pat) (hnm : NormOK x (flM true fl false) ps) :
-    ∃ o, translate x fl 0 ps none = .ok o := by
-  rw [translate_eq]; exact pn_zero true x fl cnt hb ps hnm
+    ∃ o, translate x fl 0 ps none = .ok o :=
+  C11_zero_disables_translate x fl cnt hb ps none trivial hnm
 
 /-! ### `compile_pattern` -/
+
+/-- FULL (was `_partial` with `exclude = none ∨ exclCount < L`) -/
+theorem C11_raises_compile (x : Ext R) (fl : Flags) (cnt : Pat → Nat) (hb : BraceOK x cnt)
+    (L : Int) (hL : 0 < L) (ps : List Pat) (ex : Option (List Pat))
+    (hne : exclNormOK false x fl ex) (hnm : NormOK x (flM false fl ex.isSome) ps)
+    (h : L < ((exclCount false x fl ex + (distinct (allPieces x (flM false fl ex.isSome) ps)).length : Nat) : Int)) :
+    ∃ k, compilePattern x fl L ps ex = .error (.patternLimit, k) := by
+  rw [compilePattern_eq]
+  have := distinct_length_le (allPieces x (flM false fl ex.isSome) ps)
+  exact pn_raises false x fl cnt hb L hL ps ex hne hnm (Or.inr (by push_cast at h ⊢; omega))
+
+theorem C11_raises_compile_total (x : Ext R) (fl : Flags) (cnt : Pat → Nat) (hb : BraceOK x cnt)
+    (L : Int) (hL : 0 < L) (ps : List Pat) (ex : Option (List Pat))
+    (hne : exclNormOK false x fl ex) (hnm : NormOK x (flM false fl ex.isSome) ps)
+    (h : L < (exclTotal false x fl ex : Int) ∨
+         L < ((exclCount false x fl ex + (allPieces x (flM false fl ex.isSome) ps).length : Nat) : Int)) :
+    ∃ k, compilePattern x fl L ps ex = .error (.patternLimit, k) := by
+  rw [compilePattern_eq]; exact pn_raises false x fl cnt hb L hL ps ex hne hnm h
 
 theorem C11_raises_compile_partial (x : Ext R) (fl : Flags) (cnt : Pat → Nat) (hb : BraceOK x cnt)
     (L : Int) (hL : 0 < L) (ps : List Pat) (ex : Option (List Pat))
     (hne : exclNormOK false x fl ex) (hnm : NormOK x (flM false fl ex.isSome) ps)
-    (hpart : ex = none ∨ (exclCount false x fl ex : Int) < L)
+    (_hpart : ex = none ∨ (exclCount false x fl ex : Int) < L)
     (h : L < ((exclCount false x fl ex + (distinct (allPieces x (flM false fl ex.isSome) ps)).length : Nat) : Int)) :
-    ∃ k, compilePattern x fl L ps ex = .error (.patternLimit, k) := by
-  rw [compilePattern_eq]; exact pn_raises false x fl cnt hb L hL ps ex hne hnm hpart h
+    ∃ k, compilePattern x fl L ps ex = .error (.patternLimit, k) :=
+  C11_raises_compile x fl cnt hb L hL ps ex hne hnm h
 
 theorem C11_ok_compile (x : Ext R) (fl : Flags) (cnt : Pat → Nat) (hb : BraceOK x cnt)
     (L : Int) (hL : 0 < L) (ps : List Pat) (ex : Option (List Pat))
     (hne : exclNormOK false x fl ex) (hnm : NormOK x (flM false fl ex.isSome) ps)
     (h : ((exclWeight false x fl cnt ex + totalWeight x (flM false fl ex.isSome) cnt ps : Nat) : Int) ≤ L) :
-    ∃ o, compilePattern x fl L ps ex = .ok o := by
-  rw [compilePattern_eq]; exact pn_ok false x fl cnt hb L hL ps ex hne hnm h
+    ∃ o, compilePattern x fl L ps ex = .ok o ∧ compilePattern x fl 0 ps ex = .ok o := by
+  rw [compilePattern_eq, compilePattern_eq]; exact pn_ok false x fl cnt hb L hL ps ex hne hnm h
 
 theorem C11_work_compile (x : Ext R) (fl : Flags) (cnt : Pat → Nat) (hb : BraceOK x cnt)
+    (hs : ∀ f : Flags, f.split = true → SplitNonempty x f) (L : Int) (hL : 0 < L)
+    (ps : List Pat) (ex : Option (List Pat)) :
+    (ex = none → (pullsOf (compilePattern x fl L ps ex) Out.pulls : Int) ≤ L + 1) ∧
+    ((pullsOf (compilePattern x fl L ps ex) Out.pulls + exclCount false x fl ex : Nat) : Int) ≤
+        L + 1 + exclTotal false x fl ex ∧
+    (pullsOf (compilePattern x fl L ps ex) Out.pulls : Int) ≤ 2 * L + 1 := by
+  rw [compilePattern_eq]
+  obtain ⟨h1, h2, h3, _⟩ := pn_work false x fl cnt hb hs L hL ps ex
+  exact ⟨h1, h2, h3⟩
+
+theorem C11_work_compile_partial (x : Ext R) (fl : Flags) (cnt : Pat → Nat) (hb : BraceOK x cnt)
     (hs : ∀ f : Flags, f.split = true → SplitNonempty x f) (L : Int) (hL : 0 < L)
     (ps : List Pat) (ex : Option (List Pat)) (hpart : ex = none ∨ (exclCount false x fl ex : Int) < L) :
     (ex = none → (pullsOf (compilePattern x fl L ps ex) Out.pulls : Int) ≤ L + 1) ∧
     ((pullsOf (compilePattern x fl L ps ex) Out.pulls + exclCount false x fl ex : Nat) : Int) ≤ 2 * L + 1 := by
-  rw [compilePattern_eq]; exact pn_work false x fl cnt hb hs L hL ps ex hpart
+  rw [compilePattern_eq]
+  obtain ⟨h1, _, _, h4⟩ := pn_work false x fl cnt hb hs L hL ps ex
+  exact ⟨h1, h4 hpart⟩
 
 theorem C11_work_compile_nodup (x : Ext R) (fl : Flags) (cnt : Pat → Nat) (hb : BraceOK x cnt)
     (hs : ∀ f : Flags, f.split = true → SplitNonempty x f) (L : Int) (hL : 0 < L) (ps e : List Pat)
-    (hpart : ((distinct (allPieces x (flE false fl) e)).length : Int) < L)
     (hnodup : (allPieces x (flE false fl) e).length = (distinct (allPieces x (flE false fl) e)).length) :
     (pullsOf (compilePattern x fl L ps (some e)) Out.pulls : Int) ≤ L + 1 := by
-  rw [compilePattern_eq]; exact pn_work_nodup false x fl cnt hb hs L hL ps e hpart hnodup
+  rw [compilePattern_eq]; exact pn_work_nodup false x fl cnt hb hs L hL ps e hnodup
+
+theorem C11_zero_disables_compile (x : Ext R) (fl : Flags) (cnt : Pat → Nat) (hb : BraceOK x cnt)
+    (ps : List Pat) (ex : Option (List Pat))
+    (hne : exclNormOK false x fl ex) (hnm : NormOK x (flM false fl ex.isSome) ps) :
+    ∃ o, compilePattern x fl 0 ps ex = .ok o := by
+  rw [compilePattern_eq]; exact ⟨_, pn_zero false x fl cnt hb ps ex hne hnm⟩
 
 theorem C11_zero_disables_compile_partial (x : Ext R) (fl : Flags) (cnt : Pat → Nat) (hb : BraceOK x cnt)
     (ps : List Pat) (hnm : NormOK x (flM false fl false) ps) :
-    ∃ o, compilePattern x fl 0 ps none = .ok o := by
-  rw [compilePattern_eq]; exact pn_zero false x fl cnt hb ps hnm
+    ∃ o, compilePattern x fl 0 ps none = .ok o :=
+  C11_zero_disables_compile x fl cnt hb ps none trivial hnm
+
+/-- "per call": each of the two loops of a `translate` / `compile_pattern` call (the exclusion call:
+    `used = 0`; the main loop: `used = len(negative) ≤ L`) draws, counted together with the
+    patterns it started from, at most `L` items (`L + 1` when it raises) beyond the pull count it
+    started with.  (`translateCore x fl` is `compileCore x { fl with translate := true }`.) -/
+theorem C11_work_per_call (x : Ext R) (fl : Flags) (hs : fl.split = true → SplitNonempty x fl) (L : Int) (hL : 0 < L)
+    (ps : List Pat) (neg0 : List R) (pulls0 used : Nat) (hu : (used : Int) ≤ L) :
+    (∀ o, compileCore x fl L ps neg0 pulls0 used = .ok o → ((o.pulls + used : Nat) : Int) ≤ pulls0 + L) ∧
+    (∀ e k, compileCore x fl L ps neg0 pulls0 used = .error (e, k) → ((k + used : Nat) : Int) ≤ pulls0 + L + 1) :=
+  core_work x fl hs L hL ps neg0 pulls0 used hu
 
 /-! ### `Glob._iter_patterns` / `_parse_patterns` -/
+
+/-- FULL: the inclusion list and the `exclude=` list are counted together (was: one of the two
+    lists alone exceeds the limit) -/
+theorem C11_raises_glob (x : Ext R) (g : GlobCfg) (cnt : Pat → Nat) (hb : BraceOK x cnt) (hL : 0 < g.limit)
+    (ps : List Pat) (ex : Option (List Pat)) (hn : NormOK x g.flags ps) (hne : exclNormOKg x g ex) (hps : ps ≠ [])
+    (h : g.limit < (((distinct (allPieces x g.flags ps)).length + (distinct (exclPiecesG x g ex)).length : Nat) : Int)) :
+    ∃ k, globPatterns x g ps ex = .error (.patternLimit, k) := by
+  apply glob_raises x g cnt hb hL ps ex hn hne hps
+  have h1 := distinct_length_le (allPieces x g.flags ps)
+  have h2 := distinct_length_le (exclPiecesG x g ex)
+  push_cast at h ⊢; omega
+
+/-- the exact count: all pieces of both lists -/
+theorem C11_raises_glob_total (x : Ext R) (g : GlobCfg) (cnt : Pat → Nat) (hb : BraceOK x cnt) (hL : 0 < g.limit)
+    (ps : List Pat) (ex : Option (List Pat)) (hn : NormOK x g.flags ps) (hne : exclNormOKg x g ex) (hps : ps ≠ [])
+    (h : g.limit < (((allPieces x g.flags ps).length + (exclPiecesG x g ex).length : Nat) : Int)) :
+    ∃ k, globPatterns x g ps ex = .error (.patternLimit, k) :=
+  glob_raises x g cnt hb hL ps ex hn hne hps h
 
 theorem C11_raises_glob_partial (x : Ext R) (g : GlobCfg) (cnt : Pat → Nat) (hb : BraceOK x cnt) (hL : 0 < g.limit)
     (ps : List Pat) (ex : Option (List Pat)) (hn : NormOK x g.flags ps) (hne : exclNormOKg x g ex) (hps : ps ≠ [])
     (h : g.limit < ((distinct (allPieces x g.flags ps)).length : Int) ∨
          g.limit < ((distinct (exclPiecesG x g ex)).length : Int)) :
     ∃ k, globPatterns x g ps ex = .error (.patternLimit, k) := by
-  apply glob_raises x g cnt hb hL ps ex hn hne hps
-  have h1 := distinct_length_le (allPieces x g.flags ps)
-  have h2 := distinct_length_le (exclPiecesG x g ex)
-  rcases h with h | h
-  · left; omega
-  · right; omega
+  apply C11_raises_glob x g cnt hb hL ps ex hn hne hps
+  rcases h with h | h <;> (push_cast; omega)
 
 theorem C11_ok_glob (x : Ext R) (g : GlobCfg) (cnt : Pat → Nat) (hb : BraceOK x cnt) (hL : 0 < g.limit)
     (ps : List Pat) (ex : Option (List Pat)) (hn : NormOK x g.flags ps) (hne : exclNormOKg x g ex)
     (h : ((totalWeight x g.flags cnt ps + exclWeightG x g cnt ex : Nat) : Int) ≤ g.limit) :
-    ∃ o, globPatterns x g ps ex = .ok o :=
+    ∃ o, globPatterns x g ps ex = .ok o ∧ globPatterns x { g with limit := 0 } ps ex = .ok o :=
   glob_ok x g cnt hb ps ex hn hne (Or.inr ⟨hL, h⟩)
 
+/-- FULL: `L + 1` for the whole call, with or without `exclude=` (was `2 L + 1` with it) -/
 theorem C11_work_glob (x : Ext R) (g : GlobCfg) (hs : g.flags.split = true → SplitNonempty x g.flags)
     (hL : 0 < g.limit) (ps : List Pat) (ex : Option (List Pat)) :
-    (ex = none → (pullsOf (globPatterns x g ps ex) GOut.pulls : Int) ≤ g.limit + 1) ∧
-    (pullsOf (globPatterns x g ps ex) GOut.pulls : Int) ≤ 2 * g.limit + 1 :=
+    (pullsOf (globPatterns x g ps ex) GOut.pulls : Int) ≤ g.limit + 1 :=
   glob_work x g hs hL ps ex
 
 theorem C11_zero_disables_glob (x : Ext R) (g : GlobCfg) (cnt : Pat → Nat) (hb : BraceOK x cnt) (h0 : g.limit = 0)
     (ps : List Pat) (ex : Option (List Pat)) (hn : NormOK x g.flags ps) (hne : exclNormOKg x g ex) :
     ∃ o, globPatterns x g ps ex = .ok o :=
-  glob_ok x g cnt hb ps ex hn hne (Or.inl h0)
+  ⟨_, glob_ok_val x g cnt hb ps ex hn hne (Or.inl h0)⟩
 
 /-! ### the budget handed to bracex
 
   bracex treats `limit=0` as "no limit", so the property's "fails fast instead of being
   materialised" needs more than the pull count: under a positive limit the `limit` argument of
   every `bracex.iexpand` call must itself be positive (and never above the call's limit).  The
-  same statement covers all three loops, which share `runPatterns`; for `translate` /
-  `compile_pattern` with `exclude=` it applies to the exclusion call with `L` and to the main loop
-  with `L - len(negative)` — which is where D11 lets a 0 through. -/
+  same statement covers all three loops, which share `runPatterns`: `C11_brace_budget` is a loop
+  that starts with `current_limit = limit` (no `exclude=`, the exclusion call, `Glob`'s inclusion
+  list), `C11_brace_budget_main` the main loop of `translate` / `compile_pattern` after `used`
+  exclusion patterns (`current_limit = max(limit - used, 1)` — where D11 let a 0 through),
+  `C11_brace_budget_glob_second` the exclusion list of `Glob`. -/
 
 theorem C11_brace_budget (x : Ext R) (fl : Flags) {O : Type} (pol : Policy O) (L : Int) (hL : 0 < L)
     (ps : List Pat) (a : Acc O) :
     ∀ qa ∈ braceArgs x fl pol L ps L a, 1 ≤ qa.2 ∧ qa.2 ≤ L :=
   braceArgs_bounds x fl pol L hL ps L a (by omega)
+
+theorem C11_brace_budget_main (x : Ext R) (fl : Flags) {O : Type} (pol : Policy O) (L : Int) (hL : 0 < L)
+    (used : Nat) (ps : List Pat) (a : Acc O) :
+    ∀ qa ∈ braceArgs x fl pol L ps (startLimit L used) a, 1 ≤ qa.2 ∧ qa.2 ≤ L := by
+  intro qa hqa
+  obtain ⟨h1, h2⟩ := startLimit_bounds L hL used
+  obtain ⟨h3, h4⟩ := braceArgs_bounds x fl pol L hL ps (startLimit L used) a h1 qa hqa
+  exact ⟨h3, by omega⟩
 
 /-- `Glob`: the exclusion list starts from whatever `current_limit` the inclusion list left (≥ 1) -/
 theorem C11_brace_budget_glob_second (x : Ext R) (g : GlobCfg) (hL : 0 < g.limit) (e : List Pat) (cl : Int)
@@ -179,48 +304,81 @@ theorem toy_braceOK : BraceOK toy (fun p => (toyItems p).length) := eagerBrace_o
 def bfl : Flags := { brace := true }
 def s (l : List String) : List Pat := l.map String.toList
 
-/-- D11: `fnmatch('a','{a,b,c,d,e,f,g,h}',BRACE,limit=3,exclude=['x','y','z'])` — 3 + 8 = 11
-    distinct patterns, limit 3, no exception (limit becomes 0 = unlimited) -/
-theorem D11_witness_compile :
-    (match compilePattern toy bfl 3 (s ["{8}"]) (some (s ["x", "y", "z"])) with
-      | .ok o => o.pos.length == 8 && o.neg.length == 3
-      | .error _ => false) = true := by decide +kernel
+/-- D11 repaired: `fnmatch('a','{a,b,c,d,e,f,g,h}',BRACE,limit=3,exclude=['x','y','z'])` — 3 + 8 = 11
+    patterns, limit 3: PatternLimitException (the three exclusions are `used`, bracex gets the
+    budget `max(3 - 3, 1) = 1`); it used to return 8 + 3 patterns (limit became 0 = unlimited) -/
+theorem D11_fixed_witness_compile :
+    compilePattern toy bfl 3 (s ["{8}"]) (some (s ["x", "y", "z"])) = .error (.patternLimit, 3) := by decide +kernel
 
-theorem D11_witness_translate :
-    (match translate toy bfl 3 (s ["{8}"]) (some (s ["x", "y", "z"])) with
-      | .ok o => o.pos.length == 8 && o.neg.length == 3
-      | .error _ => false) = true := by decide +kernel
+theorem D11_fixed_witness_translate :
+    translate toy bfl 3 (s ["{8}"]) (some (s ["x", "y", "z"])) = .error (.patternLimit, 3) := by decide +kernel
 
-/-- the hypothesis of the partial theorem is what is missing: with 2 exclusions the same call raises -/
+/-- the boundary of the shared limit: 3 exclusions + 8 inclusions pass a limit of 11 and fail 10;
+    with 2 exclusions the limit 3 fails as it always did -/
 theorem D11_boundary :
+    (match compilePattern toy bfl 11 (s ["{8}"]) (some (s ["x", "y", "z"])) with
+      | .ok o => o.pos.length == 8 && o.neg.length == 3 && o.pulls == 11
+      | .error _ => false) = true ∧
+    compilePattern toy bfl 10 (s ["{8}"]) (some (s ["x", "y", "z"])) = .error (.patternLimit, 3) ∧
     compilePattern toy bfl 3 (s ["{8}"]) (some (s ["x", "y"])) = .error (.patternLimit, 2) := by decide +kernel
 
-/-- `limit=0` with `exclude=`: `fnmatch('a',['a','{b,c}'],BRACE,limit=0,exclude=['x'])` raises
-    although the limit is disabled (limit becomes -1, `current_limit` is clamped to 1) -/
-theorem D11_zero_witness :
-    compilePattern toy bfl 0 (s ["a", "{2}"]) (some (s ["x"])) = .error (.patternLimit, 2) ∧
+/-- `limit=0` with `exclude=` repaired: `fnmatch('a',['a','{b,c}'],BRACE,limit=0,exclude=['x'])` gives
+    the three inclusions and the exclusion, as without `exclude=` (it used to raise: the limit
+    became -1 and `current_limit` was clamped to 1) -/
+theorem D11_zero_fixed_witness :
+    (match compilePattern toy bfl 0 (s ["a", "{2}"]) (some (s ["x"])) with
+      | .ok o => o.pos.length == 3 && o.neg.length == 1 | .error _ => false) = true ∧
+    (match translate toy bfl 0 (s ["a", "{2}"]) (some (s ["x"])) with
+      | .ok o => o.pos.length == 3 && o.neg.length == 1 | .error _ => false) = true ∧
     (match compilePattern toy bfl 0 (s ["a", "{2}"]) none with | .ok o => o.pos.length == 3 | .error _ => false) = true := by
   decide +kernel
 
-/-- D11 seen at the bracex interface: with `exclude=` the main loop of `compile_pattern` is started
-    with `limit - len(negative) = 0`, and hands bracex the argument 0 = unlimited -/
-theorem D11_brace_budget_witness :
-    braceArgs toy bfl (pnPolicy toy bfl) (3 - 3) (s ["{8}"]) (3 - 3) (coreStart (s ["x", "y", "z"]) 0) =
-      [("{8}".toList, 0)] ∧
-    braceArgs toy bfl (pnPolicy toy bfl) 3 (s ["{3}", "{2}"]) 3 (coreStart [] 0) =
+/-- D11 repaired, seen at the bracex interface: after three exclusions under limit 3 the main loop
+    hands bracex the budget 1 (it used to be `3 - 3 = 0` = unlimited); without `exclude=` the
+    budget shrinks as before -/
+theorem D11_brace_budget_fixed_witness :
+    braceArgs toy bfl (pnPolicy toy bfl) 3 (s ["{8}"]) (startLimit 3 3) (coreStart (s ["x", "y", "z"]) 3 3) =
+      [("{8}".toList, 1)] ∧
+    braceArgs toy bfl (pnPolicy toy bfl) 5 (s ["{3}"]) (startLimit 5 1) (coreStart (s ["x"]) 1 1) =
+      [("{3}".toList, 4)] ∧
+    braceArgs toy bfl (pnPolicy toy bfl) 3 (s ["{3}", "{2}"]) (startLimit 3 0) (coreStart [] 0 0) =
       [("{3}".toList, 3), ("{2}".toList, 1)] := by decide +kernel
 
-/-- D22: `glob(['a','b','c'], limit=3, exclude=['x','y','z'])` — six patterns, limit 3, no exception -/
-theorem D22_witness :
-    (match globPatterns toy { flags := {}, negateall := false, nodir := false, nounique := false, limit := 3 }
-        (s ["a", "b", "c"]) (some (s ["x", "y", "z"])) with
-      | .ok o => o.pos.length == 3 && o.neg.length == 3
+/-- NOT part of D11 and unchanged by the repairs: a NEGATIVE limit never raises through the count
+    and is "unlimited" for the first pattern, but `if limit: … if current_limit < 1: current_limit
+    = 1` then clamps the bracex budget to 1, so a second brace pattern raises —
+    `fnmatch('a',['a','{b,c}'],BRACE,limit=-1)`; one brace pattern alone passes -/
+theorem negative_limit_witness :
+    compilePattern toy bfl (-1) (s ["a", "{2}"]) none = .error (.patternLimit, 1) ∧
+    braceArgs toy bfl (pnPolicy toy bfl) (-1) (s ["a", "{2}"]) (startLimit (-1) 0) (coreStart [] 0 0) =
+      [("a".toList, -1), ("{2}".toList, 1)] ∧
+    (match compilePattern toy bfl (-1) (s ["{8}"]) (some (s ["x"])) with
+      | .ok o => o.pos.length == 8 && o.neg.length == 1 | .error _ => false) = true := by decide +kernel
+
+/-- the duplicate-exclusion term of `C11_work_compile` is needed and tight:
+    `fnmatch('a',['a','b','c'],BRACE,limit=3,exclude=['x','x','x'])` draws 3 + 3 = L + 1 + 2 items
+    (the exclusion call counts 3 pieces, the main loop continues from 1 distinct exclusion) -/
+theorem work_bound_tight_witness :
+    compilePattern toy bfl 3 (s ["a", "b", "c"]) (some (s ["x", "x", "x"])) = .error (.patternLimit, 6) ∧
+    exclCount false toy bfl (some (s ["x", "x", "x"])) = 1 ∧ exclTotal false toy bfl (some (s ["x", "x", "x"])) = 3 := by
+  decide +kernel
+
+def g3 (fl : Flags) (l : Int) : GlobCfg := { flags := fl, negateall := false, nodir := false, nounique := false, limit := l }
+
+/-- D22 repaired: `glob(['a','b','c'], limit=3, exclude=['x','y','z'])` — six patterns, limit 3:
+    PatternLimitException at the fourth (it used to return 3 + 3 patterns); limit 6 passes, 5 fails -/
+theorem D22_fixed_witness :
+    globPatterns toy (g3 {} 3) (s ["a", "b", "c"]) (some (s ["x", "y", "z"])) = .error (.patternLimit, 4) ∧
+    globPatterns toy (g3 {} 5) (s ["a", "b", "c"]) (some (s ["x", "y", "z"])) = .error (.patternLimit, 6) ∧
+    (match globPatterns toy (g3 {} 6) (s ["a", "b", "c"]) (some (s ["x", "y", "z"])) with
+      | .ok o => o.pos.length == 3 && o.neg.length == 3 && o.pulls == 6
       | .error _ => false) = true := by decide +kernel
 
-/-- … while the shared `current_limit` does make a *brace* exclusion fail -/
+/-- the shared `current_limit` (the bracex budget) fails a *brace* exclusion as before -/
 theorem D22_boundary :
-    globPatterns toy { flags := bfl, negateall := false, nodir := false, nounique := false, limit := 3 }
-        (s ["{3}"]) (some (s ["{3}"])) = .error (.patternLimit, 3) := by decide +kernel
+    globPatterns toy (g3 bfl 3) (s ["{3}"]) (some (s ["{3}"])) = .error (.patternLimit, 3) ∧
+    (match globPatterns toy (g3 bfl 6) (s ["{3}"]) (some (s ["{3}"])) with
+      | .ok o => o.pos.length == 3 && o.neg.length == 3 | .error _ => false) = true := by decide +kernel
 
 /-- non-vacuity of `C11_raises_*` / `C11_ok_*`: boundary L = 3 with 3 and 4 pieces -/
 theorem boundary_witness :
